@@ -167,7 +167,16 @@ func (r *FuncResult) runHoudini(tier string) (rounds int, queries int) {
 			}
 		}
 		queries += len(qs)
-		runQueries(qs, tier, true)
+		var fastQs, slowQs []*query
+		for _, q := range qs {
+			if owner[q].c.Auto {
+				fastQs = append(fastQs, q)
+			} else {
+				slowQs = append(slowQs, q)
+			}
+		}
+		runQueries(fastQs, tier, true)
+		runQueries(slowQs, tier, false)
 		for _, q := range qs {
 			if q.result.verdict != "unsat" {
 				h := owner[q]
